@@ -48,10 +48,13 @@ impl PartialEq for V {
 }
 
 pub struct StructDef {
+    /// "" = declared in sigs.abra itself, otherwise the module file that declares it
+    pub module: &'static str,
     pub name: &'static str,
     pub fields: Vec<(&'static str, Ty)>,
 }
 pub struct EnumDef {
+    pub module: &'static str,
     pub name: &'static str,
     pub variants: Vec<(&'static str, Vec<Ty>)>,
 }
@@ -79,20 +82,29 @@ fn n(s: &'static str) -> Ty {
 pub fn struct_defs() -> Vec<StructDef> {
     use Ty::*;
     vec![
-        StructDef { name: "Point", fields: vec![("x", Int), ("y", Float)] },
+        StructDef { module: "", name: "Point", fields: vec![("x", Int), ("y", Float)] },
         StructDef {
+            module: "",
             name: "Rec",
             fields: vec![("name", Str), ("dummy", Unit), ("tags", a(Str)), ("pos", n("Point")), ("o", o(Int)), ("gap", Unit)],
         },
-        StructDef { name: "Wrap", fields: vec![("inner", r(n("Shape"), Str)), ("c", n("Color"))] },
+        StructDef { module: "", name: "Wrap", fields: vec![("inner", r(n("Shape"), Str)), ("c", n("Color"))] },
+        // #host types declared in other modules, imported by sigs.abra in the four import forms
+        StructDef { module: "geo", name: "Vec2", fields: vec![("x", Float), ("y", Float)] },
+        StructDef { module: "pkg/inner", name: "Tag", fields: vec![("label", Str), ("w", Unit), ("n", Int)] },
+        StructDef { module: "extra", name: "Pair", fields: vec![("a", Int), ("b", Str)] },
+        StructDef { module: "extra", name: "Skip", fields: vec![("z", Int)] },
     ]
 }
 
 pub fn enum_defs() -> Vec<EnumDef> {
     use Ty::*;
     vec![
-        EnumDef { name: "Color", variants: vec![("Red", vec![]), ("Green", vec![]), ("Blue", vec![])] },
+        EnumDef { module: "", name: "Color", variants: vec![("Red", vec![]), ("Green", vec![]), ("Blue", vec![])] },
+        EnumDef { module: "geo", name: "Hue", variants: vec![("Warm", vec![]), ("Cold", vec![Int])] },
+        EnumDef { module: "al", name: "Shade", variants: vec![("Dark", vec![]), ("Light", vec![Float]), ("Mixed", vec![Int, Str])] },
         EnumDef {
+            module: "",
             name: "Shape",
             variants: vec![
                 ("Circle", vec![Float]),
@@ -170,6 +182,17 @@ pub fn sigs() -> Vec<Sig> {
         s(vec![Unit, a(Float), Unit, r(Int, Int)], t(&[a(Float), r(Int, Int)])),
         s(vec![n("Shape"), a(n("Point")), o(n("Color")), Str], t(&[n("Shape"), a(n("Point")), o(n("Color")), Str])),
         s(vec![a(Int), a(a(Str)), Str, a(Float)], t(&[a(Int), a(a(Str)), Str, a(Float)])),
+        // wide tuples (the VmType tuple impls go up to width 12; the prelude can print up to width 4, wider
+        // results are destructured and printed component by component)
+        s(vec![t(&[Int, Str, Bool, Float, Int])], t(&[Int, Str, Bool, Float, Int])),
+        s(vec![t(&[a(Int), Int, o(Str), Str, Bool, Float, Int])], t(&[a(Int), Int, o(Str), Str, Bool, Float, Int])),
+        s(vec![Int, t(&[Int, Int, Str, Int, Int, Bool, Int, Int, Float, Int, Str, Int])], t(&[Int, Int, Str, Int, Int, Bool, Int, Int, Float, Int, Str, Int])),
+        // types from imported modules: `use geo`, `use pkg/inner.(Tag)`, `use extra except Skip`, `use al as p` (D95)
+        s(vec![n("Vec2")], n("Vec2")),
+        s(vec![n("Hue"), n("Tag")], t(&[n("Hue"), n("Tag")])),
+        s(vec![n("Pair"), a(n("Pair"))], t(&[n("Pair"), a(n("Pair"))])),
+        s(vec![n("Shade")], n("Shade")),
+        s(vec![o(n("Shade")), n("Vec2"), Int], t(&[o(n("Shade")), n("Vec2"), Int])),
     ]
 }
 
@@ -203,17 +226,50 @@ pub fn rust_ty(t: &Ty) -> String {
     }
 }
 
-/// the Abra source declaring the #host types and functions (the input of the real generator)
-pub fn sigs_abra() -> String {
-    let mut s = String::new();
+/// how sigs.abra imports each module (one of every import form of the language)
+pub const IMPORTS: &[(&str, &str)] = &[
+    ("geo", "use geo"),
+    ("pkg/inner", "use pkg/inner.(Tag)"),
+    ("extra", "use extra except Skip"),
+    ("al", "use al as p"),
+];
+
+fn module_of(name: &str) -> &'static str {
     for d in struct_defs() {
+        if d.name == name {
+            return d.module;
+        }
+    }
+    for d in enum_defs() {
+        if d.name == name {
+            return d.module;
+        }
+    }
+    ""
+}
+
+/// the type as sigs.abra has to write it (a type of the aliased module needs its qualifier)
+pub fn abra_ty_sigs(t: &Ty) -> String {
+    match t {
+        Ty::Opt(x) => format!("option<{}>", abra_ty_sigs(x)),
+        Ty::Res(x, e) => format!("result<{}, {}>", abra_ty_sigs(x), abra_ty_sigs(e)),
+        Ty::Arr(x) => format!("array<{}>", abra_ty_sigs(x)),
+        Ty::Tup(xs) => format!("({})", xs.iter().map(abra_ty_sigs).collect::<Vec<_>>().join(", ")),
+        Ty::Named(s) if module_of(s) == "al" => format!("p.{s}"),
+        t => abra_ty(t),
+    }
+}
+
+fn type_defs_text(module: &str) -> String {
+    let mut s = String::new();
+    for d in struct_defs().iter().filter(|d| d.module == module) {
         s.push_str(&format!("#host\ntype {} = {{\n", d.name));
         for (f, t) in &d.fields {
             s.push_str(&format!("    {}: {}\n", f, abra_ty(t)));
         }
         s.push_str("}\n\n");
     }
-    for d in enum_defs() {
+    for d in enum_defs().iter().filter(|d| d.module == module) {
         s.push_str(&format!("#host\ntype {} =\n", d.name));
         for (v, fs) in &d.variants {
             if fs.is_empty() {
@@ -224,12 +280,8 @@ pub fn sigs_abra() -> String {
         }
         s.push('\n');
     }
-    for (i, sig) in sigs().iter().enumerate() {
-        let ps: Vec<String> = sig.params.iter().enumerate().map(|(j, t)| format!("a{}: {}", j, abra_ty(t))).collect();
-        s.push_str(&format!("#host\nfn f{:02}({}) -> {}\n\n", i, ps.join(", "), abra_ty(&sig.ret)));
-    }
     // how the Abra side shows values of the #host types
-    for d in struct_defs() {
+    for d in struct_defs().iter().filter(|d| d.module == module) {
         s.push_str(&format!("implement ToString for {} {{\n    fn str(v) {{\n        \"{}(\"", d.name, d.name));
         let mut first = true;
         for (f, t) in &d.fields {
@@ -244,7 +296,7 @@ pub fn sigs_abra() -> String {
         }
         s.push_str(" .. \")\"\n    }\n}\n\n");
     }
-    for d in enum_defs() {
+    for d in enum_defs().iter().filter(|d| d.module == module) {
         s.push_str(&format!("implement ToString for {} {{\n    fn str(v) {{\n        match v {{\n", d.name));
         for (v, fs) in &d.variants {
             if fs.is_empty() {
@@ -255,6 +307,44 @@ pub fn sigs_abra() -> String {
             }
         }
         s.push_str("        }\n    }\n}\n\n");
+    }
+    s
+}
+
+/// the Abra source declaring the #host types and functions (the input of the real generator)
+pub fn sigs_abra() -> String {
+    let mut s = String::new();
+    for (_, line) in IMPORTS {
+        s.push_str(line);
+        s.push('\n');
+    }
+    s.push('\n');
+    s.push_str(&type_defs_text(""));
+    for (i, sig) in sigs().iter().enumerate() {
+        let ps: Vec<String> = sig.params.iter().enumerate().map(|(j, t)| format!("a{}: {}", j, abra_ty_sigs(t))).collect();
+        s.push_str(&format!("#host\nfn f{:02}({}) -> {}\n\n", i, ps.join(", "), abra_ty_sigs(&sig.ret)));
+    }
+    s
+}
+
+/// every Abra file of the signature set: (path, text)
+pub fn abra_files() -> Vec<(String, String)> {
+    let mut v = vec![("sigs.abra".to_string(), sigs_abra())];
+    for (m, _) in IMPORTS {
+        let mut text = type_defs_text(m);
+        if *m == "pkg/inner" {
+            text.push_str("fn not_a_host_item() = 1\n");
+        }
+        v.push((format!("{m}.abra"), text));
+    }
+    v
+}
+
+/// what a test program has to import to name every type
+pub fn program_header() -> String {
+    let mut s = String::from("use sigs\n");
+    for (m, _) in IMPORTS {
+        s.push_str(&format!("use {m}\n"));
     }
     s
 }
